@@ -15,6 +15,7 @@
 package l4tee
 
 import (
+	"context"
 	"encoding/json"
 	"io"
 	"net"
@@ -100,6 +101,17 @@ func (t *Handler) Handle(cx *layer4.Connection, next layer4.Handler) error {
 		Conn:   cx,
 		Reader: pr,
 	})
+
+	// the branch runs concurrently with the handlers that follow, and the
+	// variable table is a plain map: the branch works on its own copy of
+	// what has been recorded so far
+	branchVars := make(map[string]interface{})
+	if vars, ok := cx.Context.Value(layer4.VarsCtxKey).(map[string]interface{}); ok {
+		for k, v := range vars {
+			branchVars[k] = v
+		}
+	}
+	branchc.Context = context.WithValue(cx.Context, layer4.VarsCtxKey, branchVars)
 
 	// run the branch concurrently
 	go func() {
